@@ -1585,6 +1585,42 @@ fn resolve_benchmark_file_path(path: &str) -> PathBuf {
     }
 }
 
+/// Verification hooks (add-only; compiled only with `--cfg datafusion_verif`).
+#[cfg(datafusion_verif)]
+pub mod verif {
+    use super::*;
+
+    /// `SqlBenchmark::compare_results` on a query with the given text and column count.
+    pub fn compare_results(
+        query_text: &str,
+        column_count: usize,
+        actual_results: &[Vec<String>],
+        expected_results: &[Vec<String>],
+    ) -> Result<()> {
+        let query = BenchmarkQuery {
+            path: None,
+            query: query_text.to_string(),
+            column_count,
+            expected_result: expected_results.to_vec(),
+        };
+        SqlBenchmark::compare_results(&query, actual_results, expected_results)
+    }
+
+    pub fn format_record_batches(
+        batches: &[RecordBatch],
+    ) -> Result<Vec<Vec<String>>, DataFusionError> {
+        super::format_record_batches(batches)
+    }
+
+    pub fn process_replacements_with_env(
+        input: &str,
+        replacement_map: &HashMap<String, String>,
+        get_env: impl Fn(&str) -> Option<String>,
+    ) -> Result<String> {
+        super::process_replacements_with_env(input, replacement_map, get_env)
+    }
+}
+
 #[cfg(test)]
 mod tests {
     use super::*;
